@@ -196,6 +196,23 @@ def _refit(r, case):
         if not (seq.values_equal(fresh[n][1], o2) and (isinstance(res, zoo.Raised) == isinstance(res2, zoo.Raised))):
             r.violation(f'C19:{kind}:{label}:two-fresh-fits-differ', f'{kind} {label}: two fresh objects fitted on {n} differ: '
                         f'{_diff(fresh[n][1], o2)}', case=case)
+    # (2b) two objects alive at the same time: fitting the second (on other data) must not change what the first answers
+    ok_names = [n for n in names if fresh[n][0] is None]
+    for i, n1 in enumerate(ok_names):
+        n2 = ok_names[(i + 1) % len(ok_names)]
+        if n2 == n1:
+            continue
+        m1 = new_model(kind, cfg)
+        do_fit(m1, kind, n1)
+        m2 = new_model(kind, cfg)
+        do_fit(m2, kind, n2)
+        o1 = observe(m1, kind, cfg, n1)
+        r.tr(2)
+        r.ev()
+        if not seq.values_equal(o1, fresh[n1][1]):
+            r.violation(f'C19:{kind}:{label}:models-coupled', f'{kind} {label}: a model fitted on {n1} answers differently once '
+                        f'ANOTHER object of the same configuration has been fitted on {n2}: {_diff(o1, fresh[n1][1])}', case=case)
+            break
     cache = {}
 
     def build(hist):
@@ -334,6 +351,36 @@ def _unfitted(r, case):
                     r.violation(f'C19:refused-first-fit:{label.split(":")[1]}:{q}:{out.name if isinstance(out, zoo.Raised) else "returned"}',
                                 f'fresh {label}: fit({dname}) raised {res.name} ({res.msg}); afterwards {q}(...) {what} instead of '
                                 f'raising NotFittedError', case=case)
+    # the same for the bivariate families: after a refused first fit a query raises (NotFittedError, or ValueError for the
+    # inadmissible theta) - it never returns an answer
+    from mc import alphabets as A_
+    biv_refusable = {'negative-tau': A_.designed_tau_array(60, -0.5), 'tau=-1': np.column_stack([np.linspace(0.05, 0.95, 19), np.linspace(0.95, 0.05, 19)]),
+                     'constant-column': np.column_stack([np.full(20, 0.5), np.linspace(0.1, 0.9, 20)]),
+                     'out-of-range': np.array([[0.1, 0.2], [1.5, 0.3], [0.4, 0.9]]), 'nan': np.array([[0.1, 0.2], [np.nan, 0.3], [0.4, 0.9]]),
+                     'one-row': np.array([[0.3, 0.6]]), 'empty': np.empty((0, 2))}
+    for label, mk, queries in [o for o in objs if o[0].startswith('biv:')]:
+        for dname, data in biv_refusable.items():
+            with warnings.catch_warnings():
+                warnings.simplefilter('ignore')
+                m = mk()
+                with np.errstate(all='ignore'):
+                    res = zoo.attempt(m.fit, data.copy())
+            r.tr()
+            if not isinstance(res, zoo.Raised):
+                continue
+            n_refused += 1
+            for q, args in queries:
+                with warnings.catch_warnings():
+                    warnings.simplefilter('ignore')
+                    with np.errstate(all='ignore'):
+                        out = zoo.attempt(getattr(m, q), *args)
+                r.ev()
+                r.state(('refused-first-fit', label, dname, q))
+                if not (isinstance(out, zoo.Raised) and out.name in ('NotFittedError', 'ValueError')):
+                    what = f'raised {out.name}' if isinstance(out, zoo.Raised) else f'returned {_sh(out)}'
+                    r.violation(f'C19:refused-first-fit:{label}:{q}:{out.name if isinstance(out, zoo.Raised) else "returned"}',
+                                f'fresh {label}: fit({dname}) raised {res.name} ({res.msg}); afterwards {q}(...) {what} instead of '
+                                f'raising NotFittedError / ValueError', case=case)
     engine.require(n_refused >= 20, f'only {n_refused} refused first fits')
     r.hit('unfitted')
     r['sample'] = {'unfitted_objects': len(objs), 'refused_first_fits': n_refused}
